@@ -92,7 +92,7 @@ class PDFToPNG(object):
             data, context = lena.flow.get_data_context(val)
             if is_pdf(context):
                 outputc = context["output"]
-                outputc["filetype"] = "png"
+                outputc["filetype"] = self._format
                 pdf_name = data
                 if pdf_name.endswith(".pdf"):
                     # only the extension is removed
